@@ -509,12 +509,21 @@ def c07(run):
         return kind_domain(case, res, terms)
     run.bounds = {'dimensions': '<= 3 (static) / 2 (dynamic)', 'presence patterns': 'all 2^k when <= cap, else '
                   'all-absent, all-present, single-absent, single-present and seeded random ones',
+                  'drivers': 'gradient, hessian, jacobian, partial_hessian (and try_ variants) with the closure '
+                             'returning all-absent, all-present, one-absent and one-present components; '
+                             'static and dynamic, dims as in C05',
                   'induction': 'each operation maps an arbitrary operand in any representation and its '
                                'zero-filled twin to equal results; by induction this covers sequences of '
                                'compound assignments of any length'}
     run_same(run, specs, groups, lambda c: 'C07:' + c['kind'].replace('az:', ''), 'c07', dom)
     dv = dv_specs(run.tier)
     parallel(run, _dv_chunk, [dv[i:i + 30] for i in range(0, len(dv), 30)])
+    # driver functions: whatever representation the closure's outputs use (every component absent,
+    # every component present with arbitrary - in particular zero - entries, one component absent,
+    # one component present), the driver hands back the parts with absent read as zero
+    drv = [sp for sp in dict.fromkeys(_drv_specs(run.tier))
+           if ':probe' in sp[1] and sp[1].split(':')[1] in ('gradient', 'hessian', 'jacobian', 'phess')]
+    parallel(run, _c05_chunk, [drv[i:i + 6] for i in range(0, len(drv), 6)])
 
 
 EXPLAIN['C07'] = ('every operation is traced on operands with each presence pattern and again on the same operands '
@@ -880,6 +889,17 @@ def _drv_specs(tier):
                 one |= pat << (q * g_per_ret)
             pres = one | (one << (nrets * g_per_ret))
             specs.append(('-', f'drv:{drv}:{dims}:probe{extra}', pres))
+        if nrets > 1:
+            # mixed representations across the output components: exactly one component constant
+            # (absent derivative part), and exactly one component non-constant
+            full = (1 << g_per_ret) - 1
+            allp = 0
+            for q in range(nrets):
+                allp |= full << (q * g_per_ret)
+            for q in range(nrets):
+                for one in (allp & ~(full << (q * g_per_ret)), full << (q * g_per_ret)):
+                    pres = one | (one << (nrets * g_per_ret))
+                    specs.append(('-', f'drv:{drv}:{dims}:probe{extra}', pres))
         specs.append(('-', f'drv:{drv}:{dims}:err{extra}', 0))
 
     for d in ('first', 'second', 'third', 'spd', 'tpd'):
@@ -940,7 +960,7 @@ def _c05_chunk(run, specs):
         terms = ir.dag_to_terms(case['dag'])
         for path in case['paths']:
             res = path['result']
-            role = f'C05:{drv}:{mode}'
+            role = f'{run.prop}:{drv}:{mode}'
             if 'panic' in res:
                 run.violations.append({'case': case_id(case), 'role': role, 'obligation': 'driver must not panic',
                                        'native_f64': res['panic'][:200]})
@@ -1479,7 +1499,7 @@ def c03_programs(run, shapes, count, max_depth):
                 continue   # keep the sympy derivative tables tractable: bound stated in evidence
             items.append((sh, nv, toks, e, xs))
     chunks = [items[i:i + 1] for i in range(0, len(items), 1)]
-    parallel(run, _c03_chunk, chunks, chunk_timeout=150 if run.tier == 'quick' else 1800)
+    parallel(run, _c03_chunk, chunks, chunk_timeout=150 if run.tier == 'quick' else 300)
     return progs
 
 
@@ -1526,8 +1546,8 @@ def drop_undecided(run, max_fraction=0.25):
 def c03(run):
     shapes = (['Dual2', 'Dual3', 'HyperDual', 'HyperHyperDual', 'DualVec2', 'Dual2<Dual>'] if run.tier == 'quick'
               else SC + ['DualVec2', 'Dual2Vec2', 'HyperDualVec22', 'DualVecD2'] + NEST_ALL[:6])
-    count = 10 if run.tier == 'quick' else 40
-    run.timeout_ms = 3000 if run.tier == 'quick' else 15000
+    count = 10 if run.tier == 'quick' else 30
+    run.timeout_ms = 3000 if run.tier == 'quick' else 8000
     c03_programs(run, shapes, count, 3 if run.tier == 'quick' else 4)
     drop_undecided(run)
     run.bounds = {'programs': f'{count} seeded random expression DAGs (seed {run.seed}): <= 3 variables, depth <= '
@@ -1550,6 +1570,15 @@ EXPLAIN['C03'] = ('bounded program exploration: seeded random programs are run t
 # ---------------------------------------------------------------------------------------------
 # C04 agreement of types, nestings, storage variants
 # ---------------------------------------------------------------------------------------------
+C04_SWEEP = ([(1, ['x0', f], None, None) for f in
+              ('sin', 'cos', 'tan', 'exp', 'exp2', 'exp_m1', 'sinh', 'cosh', 'tanh', 'atan', 'asinh', 'neg',
+               'asin', 'acos', 'atanh', 'powi:3', 'powi:4')] +
+             [(1, ['x0', 'sq1p', f], None, None) for f in
+              ('ln', 'log2', 'log10', 'ln_1p', 'sqrt', 'cbrt', 'recip', 'acosh', 'powi:-2', 'powf:2.5',
+               'powf:-0.5', 'powf:3.0')] +
+             [(2, t.split(','), None, None) for t in
+              ('x0,x1,mul', 'x0,x1,sq1p,div', 'x0,sq1p,x1,powd', 'x0,x1,x0,muladd', 'x0,x1,sq1p,divas',
+               'x0,x1,mulas')])
 C04_TYPES_QUICK = ['Dual', 'Dual2', 'Dual3', 'HyperDual', 'HyperHyperDual', 'DualVec2', 'Dual2Vec2', 'Dual2Vec1',
                    'HyperDualVec11', 'HyperDualVec22', 'Dual<Dual>', 'Dual<Dual<Dual>>', 'Dual2<Dual>']
 C04_TYPES_ALL = C04_TYPES_QUICK + ['DualVec1', 'DualVec3', 'HyperDualVec21', 'HyperDualVec12', 'HyperDualVec23',
@@ -1718,8 +1747,11 @@ def _c04_storage_chunk(run, args):
 def c04(run):
     count = 8 if run.tier == 'quick' else 60
     progs = gen_programs(run.seed + 7, count, max_vars=2, max_depth=3, single_path=True)
+    # systematic sweep: every single-path operation of the interface once on its own, so that a slip
+    # confined to one function and one type combination (e.g. only nested types) meets every type
+    progs = C04_SWEEP + progs
     parallel(run, _c04_chunk, [progs[i:i + 1] for i in range(len(progs))],
-             chunk_timeout=150 if run.tier == 'quick' else 1800)
+             chunk_timeout=150 if run.tier == 'quick' else 600)
     drop_undecided(run)
     pairs = STORAGE_PAIRS[:5] if run.tier == 'quick' else STORAGE_PAIRS
     sp = progs[:4] if run.tier == 'quick' else progs[:20]
@@ -1741,7 +1773,9 @@ def c04(run):
             run.discharged += 1
         else:
             run.violations.append({'role': 'C04:NDERIV', 'type': sh, 'NDERIV': int(n), 'sum_over_levels': want})
-    run.bounds = {'programs': f'{count} seeded random programs, <= 2 variables, depth <= 3',
+    run.bounds = {'programs': f'{count} seeded random programs, <= 2 variables, depth <= 3, plus the systematic '
+                              f'sweep of {len(C04_SWEEP)} single-operation programs (every single-path unary '
+                              'function, integer/real powers, product, quotient, powd, mul_add, in-place forms)',
                   'types': 'all listed scalar, vector (dims 1..3), nested (depth <= 3) types; every assignment of '
                            'a type\'s directions to the variables from three systematic maps',
                   'static vs dynamic': 'dims 1..3, EUF-identical traces',
